@@ -629,6 +629,93 @@ pub fn generate(seed: u64) -> Project {
         modules[f].uses = uses;
     }
 
+    // ---- twin folder: a second folder holding files with the same names, some byte-identical to their
+    // twins, some differing only in their values. Each file is its own module; relative imports inside a
+    // twin resolve inside that twin.
+    if r.chance(1, 6) {
+        // only folders whose files import, relatively, nothing but each other (so the twin is self-contained)
+        let self_contained = |d: &str| {
+            modules.iter().filter(|m| m.dir() == d).all(|m| m.imports.iter().all(|i| i.spec.starts_with('/') || modules[i.target].dir() == d))
+        };
+        let d1_candidates: Vec<&str> = ["da/", "db/"].iter().copied().filter(|d| modules.iter().filter(|m| m.dir() == *d).count() >= 2 && self_contained(d)).collect();
+        if let Some(d1) = d1_candidates.first().copied() {
+            let d2 = "dx/";
+            let originals: Vec<usize> = (0..modules.len()).filter(|i| modules[*i].dir() == d1).collect();
+            let first_clone = modules.len();
+            let clone_of = |i: usize| -> Option<usize> { originals.iter().position(|o| *o == i).map(|p| first_clone + p) };
+            let mut clones: Vec<Module> = Vec::new();
+            for (pos, &o) in originals.iter().enumerate() {
+                let mut c = modules[o].clone();
+                c.rel = format!("{}{}", d2, &modules[o].rel[d1.len()..]);
+                for imp in c.imports.iter_mut() {
+                    if !imp.spec.starts_with('/') {
+                        if let Some(t2) = clone_of(imp.target) {
+                            imp.target = t2;
+                        }
+                    }
+                }
+                // the model's notion of what each use site denotes follows the import it goes through
+                let specs: Vec<(String, usize, usize)> = modules[o].imports.iter().zip(c.imports.iter()).map(|(a, b)| (a.spec.clone(), a.target, b.target)).collect();
+                for u in c.uses.iter_mut() {
+                    if u.target.0 == o {
+                        u.target.0 = first_clone + pos;
+                    } else if let Some((_, _, new_t)) = specs.iter().find(|(s, old_t, _)| !s.starts_with('/') && *old_t == u.target.0) {
+                        u.target.0 = *new_t;
+                    }
+                }
+                for g in c.globals.iter_mut() {
+                    if let Ty::Blob(mi, _, _) | Ty::Enum(mi, _, _) = &mut g.ty {
+                        if *mi == o {
+                            *mi = first_clone + pos;
+                        }
+                    }
+                    if let Some((cm, _)) = &mut g.copies {
+                        if let Some(t2) = clone_of(*cm) {
+                            // a copy initialiser reads through a namespace; it follows the import like a use site does
+                            if specs.iter().any(|(s, old_t, _)| !s.starts_with('/') && *old_t == *cm) {
+                                *cm = t2;
+                            }
+                        }
+                    }
+                }
+                // every other twin differs from its original in its values only (the last one always does)
+                if pos % 2 == 1 || pos + 1 == originals.len() {
+                    for g in c.globals.iter_mut() {
+                        if let Some(l) = g.lit.clone() {
+                            let nl = match &g.ty {
+                                Ty::Int => format!("{}", l.parse::<i64>().unwrap_or(0) + 100),
+                                Ty::Float => format!("1{}", l),
+                                Ty::Str => format!("{}tw\"", l.trim_end_matches('"')),
+                                Ty::Bool => (if l == "true" { "false" } else { "true" }).to_string(),
+                                _ => l.clone(),
+                            };
+                            if let Some(at) = g.init.rfind(&l) {
+                                g.init = format!("{}{}{}", &g.init[..at], nl, &g.init[at + l.len()..]);
+                            }
+                            g.lit = Some(nl);
+                        }
+                    }
+                }
+                c.own_start = modules[o].own_start;
+                clones.push(c);
+            }
+            modules.extend(clones);
+            // the main file reaches every twin
+            for (pos, _) in originals.iter().enumerate() {
+                let t = first_clone + pos;
+                let spec = modules[t].rel.strip_suffix(".sy").unwrap().to_string();
+                let spec = if modules[t].stem() == "exports" && r.chance(1, 2) { d2.to_string() } else { spec };
+                alias_counter += 1;
+                let alias = format!("ntw{}", alias_counter);
+                modules[0].imports.push(Import { target: t, spec, kind: ImportKind::Use { alias: Some(alias.clone()) } });
+                if let Some(g) = modules[t].globals.iter().find(|g| !g.is_type && !g.is_fn).cloned() {
+                    modules[0].uses.push(UseSite { expr: format!("{}.{}", alias, g.name), target: (t, g.name.clone()), ty: g.ty.clone(), ty_expr: String::new(), call: false });
+                }
+            }
+            features.insert("twin_folder");
+        }
+    }
+
     // ---- structure probes
     let existing_all: BTreeSet<String> = modules.iter().map(|m| m.rel.clone()).collect();
     {
@@ -667,7 +754,7 @@ pub fn generate(seed: u64) -> Project {
     let closure_before = model_closure(&modules, &existing_all);
     let loaded: Vec<usize> = (0..modules.len()).filter(|i| closure_before.contains(&modules[*i].rel)).collect();
     if tr.chance(1, 3) {
-        let mut order: Vec<usize> = (0..8).collect();
+        let mut order: Vec<usize> = (0..9).collect();
         tr.shuffle(&mut order);
         'outer: for which in order {
             let f = *tr.pick(&loaded);
@@ -768,6 +855,22 @@ pub fn generate(seed: u64) -> Project {
                                 if let Some(g) = modules[i.target].globals.iter().find(|g| !g.is_type).cloned() {
                                     modules[f].raw_body.push(format!("t6 := {}.{}", implicit, g.name));
                                     twist = Some("implicit-name-used-despite-alias".into());
+                                    break 'outer;
+                                }
+                            }
+                        }
+                    }
+                }
+                8 => {
+                    // one namespace name for two different files: the second import must not be dropped silently
+                    if let Some((ns, t1)) = b.ns.iter().next().map(|(n, t)| (n.clone(), *t)) {
+                        let others: Vec<usize> = loaded.iter().copied().filter(|t| *t != t1 && *t != f).collect();
+                        if let Some(&t2) = others.first() {
+                            let specs = specs_for(&modules, f, t2);
+                            if let Some((spec, _)) = specs.first() {
+                                if spec != "/" {
+                                    modules[f].raw_top.push(format!("use {} as {}", spec, ns));
+                                    twist = Some("namespace-name-bound-to-two-files".into());
                                     break 'outer;
                                 }
                             }
